@@ -222,6 +222,23 @@ def d3(ctx):
                 ctx.decide(rule, ok, sc, c, construct="entry-scaled",
                            detail=f"solver starts from {obj}.scaling*{x0} (+ warm-start increment)",
                            bad_detail=f"start point `{arg.id}` is defined by {[src(d.ast) for d in defs]}, not {obj}.scaling*{x0}")
+                # everything that linearises the scaled objective before the solve must do so at the scaled point
+                for c2 in ast.walk(sc.node):
+                    if not isinstance(c2, ast.Call):
+                        continue
+                    last = (dotted(c2.func) or "").split(".")[-1]
+                    pt = None
+                    if last == "warm_start_increment" and len(c2.args) >= 2:
+                        pt = c2.args[1]
+                    elif last == "update_precond" and len(c2.args) >= 1:
+                        pt = c2.args[0]
+                    if pt is None:
+                        continue
+                    okp = isinstance(pt, ast.Name) and pt.id == arg.id
+                    ctx.decide(rule, okp, sc, c2, construct=f"{last}-at-the-scaled-point",
+                               detail=f"{last} is evaluated at `{src(pt)}`, the scaled start point",
+                               bad_detail=f"{last} is evaluated at `{src(pt)}` but the objective lives in the scaled variables `{arg.id}` = {obj}.scaling*{x0}: "
+                                          f"Hessian and mixed derivative of the warm start / preconditioner are taken at the wrong point whenever scaling != 1")
         for r in cfg.returns():
             v = r.ast.value
             first = v.elts[0] if isinstance(v, ast.Tuple) else v
@@ -398,6 +415,7 @@ def variants(repo):
     B = "optimism/BoundConstrainedSolver.py"
     BO = "optimism/BoundConstrainedObjective.py"
     return [
+        Variant("warm start linearised at the unscaled point", E, sub_in_func("nonlinear_equation_solve", "WarmStart.warm_start_increment(objective, xBar0, p)", "WarmStart.warm_start_increment(objective, x0, p)"), "D3/T6-scaling-transparent"),
         Variant("pNew - p_old", W, sub_in_func("warm_start_increment", "dp = objective.p[index] - pNew[index]", "dp = pNew[index] - objective.p[index]"), "D1/T7-predictor-sign"),
         Variant("return -dx", W, sub_in_func("warm_start_increment", "    return dx ", "    return -dx "), "D1/T7-predictor-sign"),
         Variant("wrong slot difference", W, sub_in_func("warm_start_increment", "dp = objective.p[index] - pNew[index]", "dp = objective.p[index] - pNew[0]"), "D1/T7-predictor-sign"),
